@@ -68,11 +68,24 @@ def brute(e1, e2, f1, f2, a2, energy):
     return H
 
 
-def oracle(e1, e2, f1, f2, a2):
+LAYOUTS = ('C', 'F', 'T')
+
+
+def relayout(a, layout):
+    """the same array values in another memory layout: Fortran order, or a transposed view of per-IMF stacked arrays"""
+    if layout == 'F':
+        return np.asfortranarray(a)
+    if layout == 'T' and a.ndim >= 2:
+        perm = (1, 0) + tuple(range(2, a.ndim))
+        return np.ascontiguousarray(a.transpose(perm)).transpose(perm)
+    return a
+
+
+def oracle(e1, e2, f1, f2, a2, layout='C'):
     from emd import spectra
     fails = []
     E1, E2 = np.array(e1, dtype=float), np.array(e2, dtype=float)
-    F1, F2, A2 = np.array(f1, dtype=float), np.array(f2, dtype=float), np.array(a2, dtype=float)
+    F1, F2, A2 = (relayout(np.array(v, dtype=float), layout) for v in (f1, f2, a2))
     A20 = A2.copy()
     for mode in ('energy', 'amplitude'):
         H = brute(e1, e2, f1, f2, a2, mode == 'energy')
@@ -108,7 +121,7 @@ EXPR = "fun c => let '(e1, e2, f1, f2, a2) := c in run_holo e1 e2 f1 f2 a2"
 def run(ctx):
     ctx.rule = ('integer first-level frequencies [T x M] and second-level frequency/amplitude arrays [T x M x K] with values '
                 'from {below, negative, each edge, each mid-bin, last edge, above} of two independent bin sets (linear/log, '
-                '1..4 bins); energy+amplitude x squash_time in {False, sum, mean}; non-trivial = some frequency out of '
+                '1..4 bins), handed over C-contiguous, Fortran-ordered or as transposed views of per-IMF stacks; energy+amplitude x squash_time in {False, sum, mean}; non-trivial = some frequency out of '
                 'range or on an edge')
     ctx.proof(extra=['props/Prop_Tie_Spectra.v'])  # translation tie: program regenerated from the source + refinement theorems
     cases = gen_cases(ctx)
@@ -124,10 +137,12 @@ def run(ctx):
         ctx.exact_cmp += 1
         if idx % 211 == 0:
             ctx.sample(dict(freq_edges=e1, freq_edges2=e2, infr=f1, infr2=f2, inam2=a2))
-        fails = oracle(*c)
+        layout = LAYOUTS[idx % 3]
+        ctx.hist['layout-' + layout] += 1
+        fails = oracle(*c, layout=layout)
         for site, detail in fails[:1]:
-            ctx.problem('impl-violation', site, detail[:600],
-                        input=dict(freq_edges=e1, freq_edges2=e2, infr=f1, infr2=f2, inam2=a2))
+            ctx.problem('impl-violation', site, ('' if layout == 'C' else '(arrays in memory layout %s) ' % layout) + detail[:600],
+                        input=dict(freq_edges=e1, freq_edges2=e2, infr=f1, infr2=f2, inam2=a2, layout=layout))
         if common.hashL(out) != mh[idx] and bad is None and not fails:
             bad = idx
     if bad is not None:
@@ -140,7 +155,7 @@ def run(ctx):
 
 def replay(rec):
     i = rec['input']
-    fails = oracle(i['freq_edges'], i['freq_edges2'], i['infr'], i['infr2'], i['inam2'])
+    fails = oracle(i['freq_edges'], i['freq_edges2'], i['infr'], i['infr2'], i['inam2'], layout=i.get('layout', 'C'))
     for f in fails:
         print(f)
     return bool(fails)
